@@ -183,12 +183,42 @@ func discoverBWS(c *Ctx, bws *types.Named) (r bwsRoles, ok bool) {
 			}
 		})
 	})
-	// done: the channel the loop closes; stop: the other one
+	// done: the channel the loop closes (itself, or through a helper it hands the channel to); stop: the other one
 	if r.loop != nil {
+		var closesParam func(h *ssa.Function, idx, d int) bool
+		closesParam = func(h *ssa.Function, idx, d int) bool {
+			if h == nil || d > 2 || idx >= len(h.Params) || len(h.Blocks) == 0 {
+				return false
+			}
+			for _, cl := range Calls(h) {
+				args := cl.Common().Args
+				if CallBuiltin(cl) == "close" && len(args) == 1 && Strip(args[0]) == ssa.Value(h.Params[idx]) {
+					return true
+				}
+				if sc := StaticCallee(cl); sc != nil {
+					for i, a := range Args(cl) {
+						if Strip(a) == ssa.Value(h.Params[idx]) && closesParam(sc, i, d+1) {
+							return true
+						}
+					}
+				}
+			}
+			return false
+		}
 		for _, g := range WithClosures(r.loop) {
 			for _, cl := range Calls(g) {
+				var closed []ssa.Value
 				if CallBuiltin(cl) == "close" && len(cl.Common().Args) == 1 {
-					d := Desc(r.loopArg(cl.Common().Args[0]))
+					closed = append(closed, cl.Common().Args[0])
+				} else if sc := StaticCallee(cl); sc != nil {
+					for i, a := range Args(cl) {
+						if _, isChan := types.Unalias(a.Type()).Underlying().(*types.Chan); isChan && closesParam(sc, i, 0) {
+							closed = append(closed, a)
+						}
+					}
+				}
+				for _, cv := range closed {
+					d := Desc(r.loopArg(cv))
 					for _, cd := range chans {
 						if strings.HasSuffix(d, "."+cd.path) {
 							r.done = cd.path
@@ -314,7 +344,7 @@ func checkC12(c *Ctx) {
 	c.Rule("R12.2", "Write: one buffered write of the original parameter; flush first exactly when it does not fit and the buffer is non-empty", 3)
 	c.Rule("R12.3", "Sync flushes when initialised and always syncs the sink", 2)
 	c.Rule("R12.4", "Stop protocol: atomic test-and-set, close once, wait unlocked, final Sync, non-blocking otherwise", 1)
-	c.Rule("R12.5", "flush loop: done closed on exit, exits only on stop, Sync on every tick; single go statement in initialize", 3)
+	c.Rule("R12.5", "flush loop: done closed on exit, exits only on stop, Sync on every tick; single go statement in initialize", 2)
 	c12Rules(c, "R12.1", "R12.2", "R12.3", "R12.4", "R12.5")
 	c.Rule("R12.6", "every call into the wrapped sink or its bufio writer (Write, Flush, Sync) runs with the mutex held: the sink needs no lock of its own", 2)
 	for _, m := range []string{"Write", "Sync"} {
@@ -393,7 +423,13 @@ func fieldOfNamed(v ssa.Value, named *types.Named) (string, bool) {
 
 func c12Rules(c *Ctx, r1, r2, r3, r4, r5 string) {
 	bws := c.Named(CorePath, "BufferedWriteSyncer")
-	if !c.Anchor(r1, "zapcore.BufferedWriteSyncer", bws != nil) {
+	ra := r1 // the rule under which unresolved anchors are reported: the first one asked for
+	for _, r := range []string{r2, r3, r4, r5} {
+		if ra == "" {
+			ra = r
+		}
+	}
+	if !c.Anchor(ra, "zapcore.BufferedWriteSyncer", bws != nil) {
 		return
 	}
 	roles, rolesOK := discoverBWS(c, bws)
@@ -402,7 +438,7 @@ func c12Rules(c *Ctx, r1, r2, r3, r4, r5 string) {
 	write := c.Method(CorePath, "BufferedWriteSyncer", "Write")
 	sync := c.Method(CorePath, "BufferedWriteSyncer", "Sync")
 	stop := c.Method(CorePath, "BufferedWriteSyncer", "Stop")
-	if !c.Anchor(r1, "BufferedWriteSyncer: mutex, bufio writer, ticker, stop/done channels, initialised/stopped flags, initialiser, flush loop, Write/Sync/Stop", rolesOK && write != nil && sync != nil && stop != nil) {
+	if !c.Anchor(ra, "BufferedWriteSyncer: mutex, bufio writer, ticker, stop/done channels, initialised/stopped flags, initialiser, flush loop, Write/Sync/Stop", rolesOK && write != nil && sync != nil && stop != nil) {
 		return
 	}
 	if r1 != "" {
@@ -412,6 +448,9 @@ func c12Rules(c *Ctx, r1, r2, r3, r4, r5 string) {
 		allHeld := len(callers) > 0
 		for _, cl := range callers {
 			h := MustHeld(cl.Parent(), nil)
+			if Eligible(cl.Parent()) {
+				h = MustHeldCtx(cl.Parent()) // a helper: what every one of its callers holds counts
+			}
 			m := Desc(Args(cl)[0]) + "." + roles.mu
 			ok := h[cl][m] == 1
 			// by exploring the caller in each life-cycle state: the initialiser runs exactly when the syncer was not
@@ -549,22 +588,34 @@ func c12Rules(c *Ctx, r1, r2, r3, r4, r5 string) {
 	}
 	if r5 != "" {
 		name := loop.String()
-		deferClose := false
-		AllInstrs(loop, func(i ssa.Instruction) {
-			if d, ok := i.(*ssa.Defer); ok && CallBuiltin(d) == "close" && strings.HasSuffix(Desc(roles.loopArg(d.Call.Args[0])), "."+roles.done) && d.Block() == loop.Blocks[0] {
-				deferClose = true
-			}
-		})
-		c.Check(deferClose, r5, name, "closes-done", loop.Pos(), "done is closed by a deferred close at entry, so Stop's wait always ends")
 		// Path exploration of the loop (helpers inline, two rounds): what each select outcome leads to
 		cut := 0
+		closeEv := func(arg ssa.Value, st *ConcState) string {
+			d := st.Desc(arg)
+			if p, isP := arg.(*ssa.Parameter); isP && p.Parent() == loop {
+				d = Desc(roles.loopArg(p))
+			}
+			if strings.HasSuffix(d, "."+roles.done) {
+				return "close-done"
+			}
+			return "close(" + d + ")"
+		}
 		seqs, trunc := ConcPaths(loop, ConcCfg{
 			MaxIter: 2, Cut: &cut,
+			DeferRun: func(d *ssa.Defer, st *ConcState) string {
+				if CallBuiltin(d) == "close" && len(d.Call.Args) == 1 {
+					return closeEv(d.Call.Args[0], st)
+				}
+				return ""
+			},
 			Event: func(in ssa.Instruction, st *ConcState) string {
 				switch x := in.(type) {
 				case *ssa.Call:
 					if IsCallTo(x, "(*go.uber.org/zap/zapcore.BufferedWriteSyncer).Sync") {
 						return "sync"
+					}
+					if CallBuiltin(x) == "close" && len(x.Call.Args) == 1 {
+						return closeEv(x.Call.Args[0], st)
 					}
 					if sc := StaticCallee(x); sc != nil && !Eligible(sc) && curProgRoot(sc) {
 						return "call:" + sc.Name()
@@ -625,7 +676,8 @@ func c12Rules(c *Ctx, r1, r2, r3, r4, r5 string) {
 			},
 		})
 		var bad []string
-		reLoop := regexp.MustCompile(`^(tick sync )*stop ret $`)
+		// ... and done is closed when the loop is left (deferred, so that Stop's wait always ends)
+		reLoop := regexp.MustCompile(`^(tick sync )*stop close-done ret $`)
 		nOK := 0
 		for _, sq := range seqs {
 			var toks []string
@@ -643,7 +695,7 @@ func c12Rules(c *Ctx, r1, r2, r3, r4, r5 string) {
 				bad = append(bad, sq)
 			}
 		}
-		c.Check(!trunc && nOK > 0 && len(bad) == 0, r5, name, "loop-protocol", loop.Pos(), "over %d explored paths (two rounds, helpers inline; %d longer ones cut): each round waits on exactly the ticker and the stop channel; a tick is followed by s.Sync() (flush + sink sync) and another round, the stop case by returning - the loop's only exit: %v", len(seqs), cut, bad)
+		c.Check(!trunc && nOK > 0 && len(bad) == 0, r5, name, "loop-protocol", loop.Pos(), "over %d explored paths (two rounds, helpers inline; %d longer ones cut): each round waits on exactly the ticker and the stop channel; a tick is followed by s.Sync() (flush + sink sync) and another round, the stop case by returning - the loop's only exit - with the done channel closed on the way out: %v", len(seqs), cut, bad)
 		goes := 0
 		c.EachRootFunc(func(fn *ssa.Function) {
 			if fn.Pkg == nil || fn.Pkg.Pkg.Path() != CorePath {
